@@ -28,6 +28,8 @@
 (*                                                                         *)
 (* Case fields                                                             *)
 (*   server    "plain" | "tls" | "unix" | "tls2" (TLS offering HTTP/2) |   *)
+(*             "mtls" (TLS that demands a client certificate: -cert/-key,  *)
+(*             clientcert "none" | "pair" | "onefile" = key inside -cert)  *)
 (*             "h2c" (HTTP/2 without TLS, and HTTP/1.1)                    *)
 (*   http2     -http2 (default true)     h2c   -h2c                        *)
 (*   hosthdr   -header "Host: virtual.example": the request's host          *)
@@ -55,7 +57,7 @@
 (*   name      -name               hdr       two -header flags             *)
 (*   body      -body file "dflt"   chunked   -chunked                      *)
 (*   maxbody   -max-body (-1 unlimited)                                    *)
-(*   redirects "default" | "nofollow" (-redirects=-1)                      *)
+(*   redirects "default" | "nofollow" (-redirects=-1) | "zero" (=0)         *)
 (*   keepalive -keepalive          timeout   "default" | "short" (50 ms)   *)
 (*   connectto targets name e2e.invalid:PORT, -connect-to maps it          *)
 (*   laddr     -laddr=127.0.0.2    prom      -prometheus-addr              *)
@@ -73,11 +75,12 @@ Min(a, b) == IF a <= b THEN a ELSE b
 Base == [server |-> "plain", trust |-> "na", format |-> "http", lazy |-> TRUE, bad |-> "none", rate |-> 0, maxw |-> 1, workers |-> 1,
          name |-> "", hdr |-> FALSE, body |-> FALSE, chunked |-> FALSE, maxbody |-> -1, redirects |-> "default", keepalive |-> TRUE,
          timeout |-> "default", connectto |-> FALSE, laddr |-> FALSE, prom |-> FALSE, maxconn |-> 0, hosts |-> 1,
-         http2 |-> TRUE, h2c |-> FALSE, hosthdr |-> FALSE, stall |-> FALSE, head |-> FALSE, lookup |-> FALSE, dnsdest |-> "none"]
+         http2 |-> TRUE, h2c |-> FALSE, hosthdr |-> FALSE, stall |-> FALSE, head |-> FALSE, lookup |-> FALSE, dnsdest |-> "none", clientcert |-> "none"]
 
 Valid(c) ==
-    /\ c.server \in {"plain", "tls", "unix", "tls2", "h2c"} /\ c.format \in {"http", "json"} /\ c.bad \in {"none", "late"}
-    /\ (c.server \in {"tls", "tls2"}) = (c.trust # "na")
+    /\ c.server \in {"plain", "tls", "unix", "tls2", "h2c", "mtls"} /\ c.format \in {"http", "json"} /\ c.bad \in {"none", "late"}
+    /\ (c.server \in {"tls", "tls2", "mtls"}) = (c.trust # "na")
+    /\ c.clientcert \in {"none", "pair", "onefile"} /\ (c.clientcert # "none" => c.server \in {"tls", "mtls"})
     /\ (c.h2c => c.server = "h2c") /\ c.trust \in {"na", "insecure", "rootcert", "none"}
     /\ (c.stall => c = [Base EXCEPT !.stall = TRUE, !.lazy = FALSE, !.rate = 200, !.maxw = 64])
     /\ (c.lookup => c.server = "plain" /\ ~c.connectto /\ ~c.laddr /\ ~c.hosthdr)
@@ -85,7 +88,7 @@ Valid(c) ==
     /\ (c.dnsdest # "none" => c.connectto /\ c.server = "plain" /\ c.hosts = 1 /\ ~c.keepalive /\ ~c.laddr /\ c.timeout = "default" /\ c.maxconn = 0)
     /\ (c.head => ~c.body)           \* (a HEAD request is sent without a body here)
     /\ c.rate \in {0, 2, 50, 200}          \* (2 per second: the duration is shorter than one pacing interval) /\ c.maxw \in {1, 3, 64} /\ (c.maxw = 64 => c.stall) /\ c.workers \in {1, 3}
-    /\ c.maxbody \in {-1, 0, 2, 9} /\ c.redirects \in {"default", "nofollow"} /\ c.timeout \in {"default", "short"}
+    /\ c.maxbody \in {-1, 0, 2, 9} /\ c.redirects \in {"default", "nofollow", "zero"} /\ c.timeout \in {"default", "short"}
     /\ (c.prom => c.lazy /\ c.maxw = 1 /\ c.trust # "none" /\ c.bad = "none" /\ c.timeout = "default")   \* the waiting target must come last
     /\ (c.server = "unix" => ~c.connectto /\ ~c.laddr)
     /\ (c.connectto => c.server \in {"plain", "h2c"} /\ ~c.h2c)   \* -h2c swaps the transport: options applied after it are ignored (see DESIGN)
@@ -103,7 +106,7 @@ Single ==
           [Base EXCEPT !.bad = "late", !.format = "json", !.lazy = FALSE, !.rate = 50],
           [Base EXCEPT !.maxw = 3], [Base EXCEPT !.maxw = 3, !.workers = 3], [Base EXCEPT !.name = "n"], [Base EXCEPT !.hdr = TRUE],
           [Base EXCEPT !.body = TRUE], [Base EXCEPT !.body = TRUE, !.chunked = TRUE], [Base EXCEPT !.chunked = TRUE],
-          [Base EXCEPT !.maxbody = 0], [Base EXCEPT !.maxbody = 2], [Base EXCEPT !.maxbody = 9], [Base EXCEPT !.redirects = "nofollow"],
+          [Base EXCEPT !.maxbody = 0], [Base EXCEPT !.maxbody = 2], [Base EXCEPT !.maxbody = 9], [Base EXCEPT !.redirects = "nofollow"], [Base EXCEPT !.redirects = "zero"], [Base EXCEPT !.redirects = "zero", !.lazy = FALSE, !.rate = 50, !.format = "json"],
           [Base EXCEPT !.keepalive = FALSE], [Base EXCEPT !.keepalive = FALSE, !.maxw = 3], [Base EXCEPT !.timeout = "short"],
           [Base EXCEPT !.connectto = TRUE], [Base EXCEPT !.laddr = TRUE], [Base EXCEPT !.prom = TRUE], [Base EXCEPT !.prom = TRUE, !.format = "json"],
           [Base EXCEPT !.server = "unix"], [Base EXCEPT !.server = "tls", !.trust = "insecure"], [Base EXCEPT !.server = "tls", !.trust = "rootcert"],
@@ -119,6 +122,9 @@ Single ==
           [Base EXCEPT !.lookup = TRUE], [Base EXCEPT !.lookup = TRUE, !.lazy = FALSE, !.rate = 50, !.maxw = 3],
           [Base EXCEPT !.connectto = TRUE, !.keepalive = FALSE, !.dnsdest = "forever"], [Base EXCEPT !.connectto = TRUE, !.keepalive = FALSE, !.dnsdest = "off"],
           [Base EXCEPT !.connectto = TRUE, !.keepalive = FALSE, !.dnsdest = "forever", !.lazy = FALSE, !.rate = 50, !.maxw = 3],
+          [Base EXCEPT !.server = "mtls", !.trust = "insecure", !.clientcert = "pair"], [Base EXCEPT !.server = "mtls", !.trust = "rootcert", !.clientcert = "onefile"],
+          [Base EXCEPT !.server = "mtls", !.trust = "insecure"], [Base EXCEPT !.server = "tls", !.trust = "insecure", !.clientcert = "pair"],
+          [Base EXCEPT !.server = "mtls", !.trust = "insecure", !.clientcert = "pair", !.lazy = FALSE, !.rate = 0, !.maxw = 3, !.keepalive = FALSE],
           [Base EXCEPT !.head = TRUE], [Base EXCEPT !.head = TRUE, !.maxbody = 2], [Base EXCEPT !.head = TRUE, !.maxbody = 0, !.server = "tls", !.trust = "insecure"],
           [Base EXCEPT !.hosthdr = TRUE], [Base EXCEPT !.hosthdr = TRUE, !.hdr = TRUE, !.format = "json"], [Base EXCEPT !.hosthdr = TRUE, !.connectto = TRUE],
           [Base EXCEPT !.maxconn = 1], [Base EXCEPT !.maxconn = 1, !.maxw = 3], [Base EXCEPT !.connectto = TRUE, !.hosts = 2],
@@ -151,12 +157,14 @@ HostOf(c, i) == IF c.lookup THEN "localhost" ELSE IF ~c.connectto THEN "127.0.0.
 \* what the attack can have in flight at once: the workers, and per host the connections
 Capacity(c) == IF c.maxconn = 0 \/ c.h2c \/ (c.server = "tls2" /\ c.http2) THEN c.maxw ELSE Min(c.maxw, c.hosts * c.maxconn)   \* HTTP/2 multiplexes
 TimesOut(c, i) == ~SlowList(c) /\ i = 6 /\ c.timeout = "short"
+\* -redirects=0: the first redirect is one too many - the hit fails instead of following it
+OverLimit(c, i) == PathOf(c, i) = "/redirect/1" /\ c.redirects = "zero"
 Captured(c, i) == IF c.maxbody < 0 THEN RespSize(c, i) ELSE Min(c.maxbody, RespSize(c, i))
 
 (*------------------------------ the contract ------------------------------*)
 \* the protocol the server sees
 Proto(c) == IF (c.server = "tls2" /\ c.http2) \/ c.h2c THEN "HTTP/2.0" ELSE "HTTP/1.1"
-Reaches(c) == c.trust # "none"                       \* hits reach the handler of the server
+Reaches(c) == c.trust # "none" /\ (c.server = "mtls" => c.clientcert # "none")                       \* hits reach the handler of the server
 SetupFails(c) == c.bad = "late" /\ ~c.lazy           \* reading all targets first meets the malformed one
 
 \* results: sequence of [seq, kind, idx, code, err_empty, body_len, bytes_in, bytes_out, attack, method, path, latency_ms]
@@ -176,6 +184,8 @@ ResultOK(c, o, r) ==
     /\ r.attack = c.name /\ r.method = MethodOf(c, i) /\ r.path = PathOf(c, i)
     /\ IF ~Reaches(c) THEN r.code = 0 /\ ~r.err_empty /\ ReqsOf(o, r.seq) = {}
        ELSE IF TimesOut(c, i) THEN ~r.err_empty /\ ~(r.code \in 200..399) /\ r.latency_ms >= 50 /\ r.latency_ms < 800
+       ELSE IF OverLimit(c, i) THEN /\ ~r.err_empty /\ ~(r.code \in 200..399)
+                                    /\ {o.reqs[j].path : j \in ReqsOf(o, r.seq)} = {"/redirect/1"}
        ELSE /\ r.code = StatusOf(c, i)
             /\ r.err_empty = (r.code \in 200..399)
             /\ r.body_len = Captured(c, i) /\ r.bytes_in = Captured(c, i)
@@ -189,7 +199,8 @@ ResultOK(c, o, r) ==
 RequestOK(c, o, q) ==
     /\ \E k \in 1..Len(o.results) : o.results[k].seq = q.seq /\ o.results[k].kind = "hit"      \* no request without a result
     /\ q.attack = c.name
-    /\ q.tls = (c.server \in {"tls", "tls2"})
+    /\ q.tls = (c.server \in {"tls", "tls2", "mtls"})
+    /\ (c.server = "mtls" => q.client_certs >= 1)       \* -cert / -key: the certificate was presented
     /\ q.proto = Proto(c)
     /\ (c.laddr => q.ip = "127.0.0.2")
     /\ q.flag = (IF c.hdr THEN <<"a", "b">> ELSE <<>>)                  \* both -header flags (values sorted by the harness: HTTP/2 has no order between them)
